@@ -35,6 +35,20 @@ def main():
                                                measure='OVERLAP', nl=1, nr=2, k=3, thresholds=[1, 2, 3],
                                                comp_ops=['>=', '>', '='], props=P)),
           bounds=dict(rows='1x2', k=3))
+    # T1: the real token ordering (discharges the arbitrary-order stub), then the public joins with the
+    # real ordering over the pandas model
+    ck.e2('T1-token-ordering', h_core.make_t1(dict(nl=2, nr=2, k=2, kmin=0) if not quick else
+                                              dict(nl=2, nr=1, k=2, kmin=0)), bounds=dict(rows='2x2', k=2))
+    from checks import stages as st
+    for e in st.SET_JOINS:
+        ck.e2('api-%s' % e, h_join.make(st.join_cfg(
+            e, nl=2, nr=2, k=1, kmin=0, missing='sym' if not quick else False, allow_missing=[False],
+            comp_ops=['>=', '>', '='] if not quick else ['>=', '='],
+            n_jobs=[1, 2], tok_return_set=[True, False] if not quick else [True], bag=True, props=P,
+            validate_every=60)))
+        ck.e2('api-%s-k2' % e, h_join.make(st.join_cfg(
+            e, nl=1, nr=2, k=2, kmin=1, comp_ops=['>='], thresholds=[1, 2] if e == 'overlap_join' else [0.5, 0.67],
+            n_jobs=[1], props=P, validate_every=60)))
     ck.finish()
 
 
